@@ -19,6 +19,7 @@ import (
 	"gitlab.com/yawning/obfs4.git/internal/zzverif/o4h"
 	"gitlab.com/yawning/obfs4.git/internal/zzverif/rnd"
 	"gitlab.com/yawning/obfs4.git/internal/zzverif/sched"
+	"gitlab.com/yawning/obfs4.git/internal/zzverif/wire"
 	"gitlab.com/yawning/obfs4.git/transports/meeklite"
 )
 
@@ -204,7 +205,7 @@ func run(c *mc.Ctx, x scen, seed int64) {
 		s.Spawn("writer", func() {
 			off := 0
 			for _, n := range x.writes {
-				k, err := conn.Write(want[off : off+n])
+				k, err := wire.WriteOwned(conn, want[off : off+n])
 				if err != nil {
 					wErr = err
 					break
